@@ -144,6 +144,25 @@ Proof.
 Qed.
 Print Assumptions C11_flip_test_faithful.
 
+(* determinism.  Every candidate order is now part of the model (additions in column order, removals and
+   flips in edges() order, first maximum wins), so [hc_estimate] is a Gallina FUNCTION of the score, the
+   options, the column order and the start graph: equal inputs give equal graphs, and PYTHONHASHSEED or
+   the node names have no way in.  The single python set left is set(fixed_edges); its iteration order is
+   the order of the list [fixed c].
+   FULL statement (not proved):  for a score of the parent set, two option records that differ only in the
+     order of [fixed] give the same trace, the same r_broke and the same edge SET of the result.
+   PROVED part: the loop reads [fixed] only through membership -- from the same seeded graph, any two
+     listings of the same fixed-edge set give the identical run (graph, trace, flags).
+   MISSING: that the position of the newly appended fixed edges in the seeded graph's edge list cannot
+     influence a choice (they are never removal/flip candidates and a set score ignores predecessor order);
+     this needs a simulation argument between the two seeded graphs.  The correspondence run checks it on the
+     model for every case with >= 2 fixed edges (tag fixed-order-permuted). *)
+Theorem C11_hc_deterministic_partial : forall s c fx start,
+  (forall e, In e (fixed c) <-> In e fx) ->
+  hc_loop s (with_fixed c fx) (max_iter c) (seed c start) [] = hc_loop s c (max_iter c) (seed c start) [].
+Proof. intros s c fx start H. apply hc_loop_fixed_set. exact H. Qed.
+Print Assumptions C11_hc_deterministic_partial.
+
 (* ---- exhaustive search ---- *)
 (* all_dags enumerates exactly the DAGs on the node list (each edge SET once is not needed for the maximum) *)
 Theorem C11_exhaustive_enumeration : forall ns, NoDup ns ->
